@@ -39,6 +39,12 @@ pub enum EOp {
     /// what a tool adding an indirectly callable function does: look the function table up with
     /// `tables.main_function_table()`, create one only if there is none, add an active segment
     AddFuncTableEntry,
+    /// the usual way to re-point an export: `exports.add(name, new item)` under the existing name,
+    /// then `exports.delete(old id)`
+    RepointFirstFuncExport,
+    /// turn the module's one local memory into an imported one: add the import, re-point data
+    /// segments, instructions and exports at it, and let gc sweep the old memory
+    ExternalizeMemoryThenGc,
     /// remove the newest import this history added through `imports.remove(module, field)` and
     /// delete the (unreferenced) entity it brought in
     RemoveNewestAddedImport,
@@ -87,6 +93,8 @@ pub fn all_ops() -> Vec<EOp> {
     v.push(EOp::BumpConsts);
     v.push(EOp::AddImportSameField);
     v.push(EOp::AddFuncTableEntry);
+    v.push(EOp::RepointFirstFuncExport);
+    v.push(EOp::ExternalizeMemoryThenGc);
     v.push(EOp::RemoveNewestAddedImport);
     v
 }
@@ -106,7 +114,7 @@ fn mvp_safe(op: &EOp, has_mem_and_table: bool) -> bool {
         EOp::AddGlobal(0) | EOp::AddGlobal(1) => true,
         EOp::AddFuncTableEntry => true,
         EOp::AddData(1) | EOp::AddElem(2) => has_mem_and_table,
-        EOp::DeleteFirstExport | EOp::DeleteNewestUnreferenced | EOp::ReplaceImported(_) | EOp::ReplaceExported(_) | EOp::SetStart | EOp::ClearStart | EOp::Gc | EOp::GrowBody(_) | EOp::BumpConsts => true,
+        EOp::DeleteFirstExport | EOp::DeleteNewestUnreferenced | EOp::ReplaceImported(_) | EOp::ReplaceExported(_) | EOp::SetStart | EOp::ClearStart | EOp::Gc | EOp::GrowBody(_) | EOp::BumpConsts | EOp::RepointFirstFuncExport | EOp::ExternalizeMemoryThenGc => true,
         _ => false,
     }
 }
@@ -776,6 +784,81 @@ fn apply_op(o: &mut EObj, op: &EOp) {
             let id = m.elements.add(ElementKind::Active { table: t, offset: ConstExpr::Value(Value::I32(0)) }, ElementItems::Functions(vec![f]));
             m.tables.get_mut(t).elem_segments.insert(id);
         }
+        EOp::ExternalizeMemoryThenGc => {
+            let mems: Vec<(MemoryId, bool, bool, u64, Option<u64>, bool)> = m.memories.iter().map(|x| (x.id(), x.import.is_some(), x.memory64, x.initial, x.maximum, x.shared)).collect();
+            if mems.len() != 1 || mems[0].1 || mems[0].2 {
+                return;
+            }
+            let (old, _, _, initial, maximum, shared) = mems[0];
+            let (new, _) = m.add_import_memory("edit", &format!("mem{}", k), shared, false, initial, maximum, None);
+            let ds: Vec<walrus::DataId> = m.data.iter().filter(|d| matches!(d.kind, DataKind::Active { memory, .. } if memory == old)).map(|d| d.id()).collect();
+            for d in ds {
+                if let DataKind::Active { memory, .. } = &mut m.data.get_mut(d).kind {
+                    *memory = new;
+                }
+                m.memories.get_mut(old).data_segments.remove(&d);
+                m.memories.get_mut(new).data_segments.insert(d);
+            }
+            struct Swap {
+                old: MemoryId,
+                new: MemoryId,
+            }
+            impl ir::VisitorMut for Swap {
+                fn visit_memory_id_mut(&mut self, m: &mut MemoryId) {
+                    if *m == self.old {
+                        *m = self.new;
+                    }
+                }
+            }
+            let fids: Vec<FunctionId> = m.funcs.iter_local().map(|(id, _)| id).collect();
+            for fid in fids {
+                let f = m.funcs.get_mut(fid).kind.unwrap_local_mut();
+                let entry = f.entry_block();
+                ir::dfs_pre_order_mut(&mut Swap { old, new }, f, entry);
+            }
+            for e in m.exports.iter_mut() {
+                if matches!(e.item, ExportItem::Memory(x) if x == old) {
+                    e.item = ExportItem::Memory(new);
+                }
+            }
+            walrus::passes::gc::run(m);
+            // gc may have deleted what this history added
+            o.unreferenced.clear();
+            o.added_imports.clear();
+            if let Some(f) = o.newest_func {
+                if !m.funcs.iter().any(|x| x.id() == f) {
+                    o.newest_func = None;
+                }
+            }
+        }
+        EOp::RepointFirstFuncExport => {
+            let old = m.exports.iter().find_map(|e| match e.item {
+                ExportItem::Function(f) => Some((e.id(), e.name.clone(), f)),
+                _ => None,
+            });
+            if let Some((old_id, name, cur)) = old {
+                // another function of the same signature (so that the module stays as valid as it was)
+                let ty = m.funcs.get(cur).ty();
+                let other = m.funcs.iter().find(|f| f.id() != cur && f.ty() == ty).map(|f| f.id());
+                if let Some(other) = other {
+                    o.unreferenced.retain(|a| !matches!(a, Added::Func(x) if *x == other));
+                    let before: Vec<String> = m.exports.iter().map(|e| e.name.clone()).collect();
+                    m.exports.add(&name, other);
+                    m.exports.delete(old_id);
+                    let mut after: Vec<String> = m.exports.iter().map(|e| e.name.clone()).collect();
+                    let still = m.exports.iter().any(|e| e.name == name && matches!(e.item, ExportItem::Function(f) if f == other));
+                    let mut b2 = before.clone();
+                    b2.sort();
+                    after.sort();
+                    if !still || b2 != after {
+                        o.noticed.push(Finding {
+                            sig: "export-lost-by-add-then-delete".into(),
+                            detail: format!("exports.add({:?}, other function) followed by exports.delete(old id) turned the export names {:?} into {:?}", name, before, after),
+                        });
+                    }
+                }
+            }
+        }
         EOp::AddImportSameField => {
             let field = o.added_imports.iter().rev().find(|x| x.0 == "edit").map(|x| x.1.clone());
             if let Some(field) = field {
@@ -910,7 +993,14 @@ impl<'a> Subject for EditSubject<'a> {
                     Ok(mut m2) => {
                         let e3 = m2.emit_wasm();
                         if e3 != out {
-                            let what = if only_block_type_encoding_differs(&out, &e3) { "block-type-index-vs-inline-form-of-the-same-signature".to_string() } else { crate::props::modhist::first_diff(&out, &e3) };
+                            // D19 (known finding) is about block types the *history* gave as an explicit type id (body kind 11);
+                            // a type index where every block type was made through `InstrSeqType::new` / the inline conversions is something else
+                            let asked_for_type_id = hist.iter().any(|h| matches!(h, EOp::AddFunc(_, 11)));
+                            let what = if only_block_type_encoding_differs(&out, &e3) {
+                                if asked_for_type_id { "block-type-index-vs-inline-form-of-the-same-signature".to_string() } else { "block-type-index-emitted-where-no-type-id-was-given".to_string() }
+                            } else {
+                                crate::props::modhist::first_diff(&out, &e3)
+                            };
                             fs.push(Finding {
                                 sig: format!("not-a-fixpoint:{}", what),
                                 detail: format!("after the edit history {:?}: emit(parse(emit(s))) differs from emit(s) ({} vs {} bytes)", hist, e3.len(), out.len()),
@@ -1012,7 +1102,7 @@ impl<'a> Subject for EditSubject<'a> {
             let mut safe = true;
             for op in hist {
                 safe &= mvp_safe(op, has && !gone);
-                gone |= *op == EOp::Gc;
+                gone |= *op == EOp::Gc || *op == EOp::ExternalizeMemoryThenGc;
             }
             if safe && wmodel::validate214(&out, wmodel::FeatureSet::DEFAULT).is_ok() {
                 if let Err(e) = wmodel::validate214(&out, wmodel::FeatureSet::MVP) {
